@@ -89,7 +89,7 @@ func runHist(ch *simrt.Chooser, opt Options) RunResult {
 	res.Counters["keyorder:"+cfg.KeyOrder.String()]++
 	res.Config = map[string]any{"ops": opt.Prop, "steps": steps, "policy": cfg.Policy.String(), "key_order": cfg.KeyOrder.String()}
 
-	h := &Hist{prop: opt.Prop, byPtr: map[uintptr]*Node{}, rel: map[[2]int]string{}, cloneTags: map[int][]int{}, hintIndex: -1, counters: res.Counters,
+	h := &Hist{prop: opt.Prop, byPtr: map[uintptr]*Node{}, rel: map[[2]int]string{}, cloneTags: map[int][]int{}, hintIndex: -1, lastTouch: map[int]int{}, lastPass: map[obsKey]int{}, counters: res.Counters,
 		derivedOK: opt.Prop == "C19" || opt.Prop == "C13" || opt.Prop == "C08" || opt.Prop == "C11", maxSlots: 16, maxNodes: 32}
 	switch ch.Draw("size-class", 12) {
 	case 0, 1:
